@@ -353,30 +353,7 @@ VF_SECTION(stream_histories, 16, 16, 240) {
     }
     if (!path.empty()) ::unlink(path.c_str());
   }
-  // stream ERRORS (the callback fails after k bytes): the statement does not say what a read helper owes then, so these
-  // are executed (termination, memory safety) and their outcomes recorded, not compared
-  for (size_t k : {(size_t)0, (size_t)3, (size_t)300, (size_t)20000}) for (int fn = 0; fn < 6; fn++) {
-    if (!r.take()) continue;
-    r.note("stream error (executed, not compared)");
-    if (r.wants_desc()) r.desc(vf::fmt("stream whose read callback fails after %zu bytes: executed, not compared", k));
-    Cookie ck;
-    ck.data = content_lines(k);
-    ck.fail_at_end = true;
-    FILE* f = open_cookie(&ck);
-    std::string out = vf::outcome([&] {
-      switch (fn) {
-        case 0: read_all(f); break;
-        case 1: phosg::fread(f, k + 10); break;
-        case 2: freadx(f, k + 10); break;
-        case 3: for (size_t i = 0; i <= k && i < 400; i++) fgetcx(f); break;
-        case 4: for (int i = 0; i < 100; i++) if (phosg::fgets(f).empty()) break; break;
-        case 5: freadx<uint64_t>(f); break;
-      }
-    });
-    fclose(f);
-    static const char* fnn[] = {"read_all", "fread", "freadx", "fgetcx", "fgets", "freadx<T>"};
-    r.ok(std::string("dont-care:stream-error:") + fnn[fn] + ":" + out);
-  }
+  // (stream ERRORS were executed-not-compared here in round 2; since round 3 they are enumerated and compared in stream_faults, C14_faults.hh)
   rm_rf(dir);
   r.bound = vf::fmt("%zu content sizes (0..%zu, around 256/4096/8192/16384) x 7 source kinds x every prefix of <=2 operations over 8 (3 operations for %s) x 6 read-to-end operations; cookie callbacks answer {full,1,half,count-1} with <=%d deviations (1 above 20000 bytes); staggered pipe writers with chunk plans {n/3+1, 4097, 255, 1}", sizes.size(), sizes.back(), r.thorough() ? "every size" : "sizes 100, 5000, 20000", bound);
 }
